@@ -19,7 +19,7 @@ class C12(BaseCheck):
   RULE = ('case = (stack, hop at expiry) x seeded offset of the deadline relative to the hop\'s hand-over '
           'instant (20%: exactly on it / on the 10 ms grid = boundary class), hops: blocked-write (serial: the deadline passes inside the blocked write of the request itself), open (client still '
           'connecting), pool-connect (second pooled connection still connecting), pool-queue (waiting for '
-          'the only connection), send-queue (mux writer stalled; one case in twelve queues 1100 calls behind a blocked write while an earlier, written call times out), wire (written, unanswered or answered '
+          'the only connection), send-queue (mux writer stalled; one case in four drains a backlog of 30-120 calls with writes that cost 1-4 ms of CPU each and never block, so that deadlines pass inside the drain; one case in twelve queues 1100 calls behind a blocked write while an earlier, written call times out), wire (written, unanswered or answered '
           'late), mixed (random combination). Every byte range the server decoded is mapped back to the '
           'client send() events that carried it; for a call handed TimeoutError at log position s no send '
           'carrying its bytes may have position > s; for mux a request fully written before s and '
@@ -32,7 +32,7 @@ class C12(BaseCheck):
              'scales.thriftmux.sink:SocketTransportSink._OnTimeout',
              'scales.pool.watermark:WatermarkPoolSink._ProcessQueue')
   REQUIRED_ANCHORS = ANCHORS
-  REQUIRED_CLASSES = tuple('%s/%s' % h for h in HOPS) + ('boundary', 'discard-expected', 'expired-not-sent', 'large-tags', 'expired-in-open-wait', 'send-queue:over-a-thousand-queued')
+  REQUIRED_CLASSES = tuple('%s/%s' % h for h in HOPS) + ('boundary', 'discard-expected', 'expired-not-sent', 'large-tags', 'expired-in-open-wait', 'send-queue:over-a-thousand-queued', 'send-queue:cpu-bound-drain')
   ASSUMPTIONS = ('bytes are attributed to calls through the frames the server decodes (cid in the argument) '
                  'plus a scan of undecoded trailing bytes for the call id',)
   QUICK_CASES = 1440
@@ -253,6 +253,16 @@ class C12(BaseCheck):
       env.advance(1.0)
       srv.sim.send_delay = None
       env.advance(8.0)
+    elif hop == 'send-queue' and (idx // len(HOPS)) % 4 == 2:
+      # a backlog drained by writes that never block but cost CPU time: the deadlines of the calls
+      # still queued pass while the send loop is busy writing the ones ahead of them
+      classes.add('send-queue:cpu-bound-drain')
+      srv.sim.send_cpu = rng.choice([0.001, 0.002, 0.004])
+      T_ = rng.choice([0.03, 0.05, 0.1])
+      for _ in range(rng.choice([30, 60, 120])):
+        call(T_, {'drop': True} if rng.random() < 0.7 else {'delay': 0.001})
+      env.advance(1.0)
+      srv.sim.send_cpu = 0.0
     elif hop == 'send-queue':
       stall = rng.choice([0.05, 0.3])
       srv.sim.send_delay = lambda conn: stall if rng.random() < 0.7 else 0.0
